@@ -3,7 +3,7 @@ import storecheck
 
 PLAN = {
     "mc": [("StoreMC_acct.cfg", False), ("StoreMC_exp_small.cfg", False), ("StoreMC_exp.cfg", True)],
-    "sims": [("StoreSim_acct.cfg", 250, 2000, 61), ("StoreSim_d16.cfg", 250, 2000, 61)],
+    "sims": [("StoreSim_acct.cfg", 250, 2000, 61), ("StoreSim_delta.cfg", 1500, 8000, 46)],
     "drivers": [("TestVerif_StoreFree", 6, 40, "store_free.ndjson", None)],
     "assumptions": [
         "exhaustive only for the small constants of spec/StoreMC_acct.cfg and StoreMC_exp*.cfg; victim choice and wheel visits are nondeterministic in Store.tla (over-approximation of W-TinyLFU and of the timer wheel)",
